@@ -7,10 +7,30 @@
 import MainlineModel
 open Mainline
 
+def hx (s : String) : Option Bytes := if s == "-" then some [] else hexToBytes s
+
+inductive DFilter where
+  | all | denyIp (ip : UInt32) | denyPut
+
 structure DState where
   closest : ClosestNodes := { target := ⟨[]⟩ }
   rt : RoutingTable := { id := ⟨[]⟩ }
   now : Nat := 0
+  -- server stream
+  server : Option Server := none
+  srt : RoutingTable := { id := ⟨[]⟩ }
+  t0 : Nat := 0
+  sigs : List (Bytes × Bytes × Bytes) := []
+  filter : DFilter := .all
+  tokens : Option Tokens := none
+  rng : UInt64 := 0
+
+def DState.verify (st : DState) : Verify := fun k msg sig => st.sigs.contains (k, msg, sig)
+def DState.allow (st : DState) : Allow := fun req src =>
+  match st.filter with
+  | .all => true
+  | .denyIp ip => src.ip != ip
+  | .denyPut => match req.rtype with | .put _ _ => false | _ => true
 
 def parseAddr (s : String) : Option Addr :=
   match s.splitOn ":" with
@@ -24,6 +44,69 @@ def showNode (n : Node) : String := bytesToHex n.id.bytes ++ "@" ++ showAddr n.a
 def showNodes (ns : List Node) : String :=
   if ns.isEmpty then "-" else ",".intercalate (ns.map showNode)
 
+def showOptNodes : Option (List Node) → String
+  | none => "none"
+  | some ns => showNodes ns
+
+def showReply : Option Reply → String
+  | none => "none"
+  | some (.error c) => s!"err {c}"
+  | some (.response r) =>
+    match r with
+    | .ping i => "ping " ++ bytesToHex i.bytes
+    | .findNode i ns => s!"find_node {bytesToHex i.bytes} nodes={showNodes ns}"
+    | .getPeers i tok vals ns =>
+      s!"get_peers {bytesToHex i.bytes} tok={if tok.isEmpty then "-" else bytesToHex tok} nodes={showOptNodes ns} values={",".intercalate (vals.map showAddr)}"
+    | .getSignedPeers i tok ps ns =>
+      s!"signed_peers {bytesToHex i.bytes} tok={if tok.isEmpty then "-" else bytesToHex tok} nodes={showOptNodes ns} peers={",".intercalate (ps.map (fun p => bytesToHex p.k ++ ":" ++ toString p.t ++ ":" ++ bytesToHex p.sig))}"
+    | .getImmutable i tok ns v =>
+      s!"imm {bytesToHex i.bytes} tok={if tok.isEmpty then "-" else bytesToHex tok} nodes={showOptNodes ns} v={if v.isEmpty then "-" else bytesToHex v}"
+    | .getMutable i tok ns v k seq sig =>
+      s!"mut {bytesToHex i.bytes} tok={if tok.isEmpty then "-" else bytesToHex tok} nodes={showOptNodes ns} v={if v.isEmpty then "-" else bytesToHex v} k={bytesToHex k} seq={seq} sig={bytesToHex sig}"
+    | .noValues i tok ns =>
+      s!"no_values {bytesToHex i.bytes} tok={if tok.isEmpty then "-" else bytesToHex tok} nodes={showOptNodes ns}"
+    | .noMoreRecentValue i tok ns seq =>
+      s!"nmr {bytesToHex i.bytes} tok={if tok.isEmpty then "-" else bytesToHex tok} nodes={showOptNodes ns} seq={seq}"
+
+def optInt (s : String) : Option (Option Int) :=
+  if s == "none" then some none else s.toInt?.map some
+
+/-- `req <from> <kind> <rid> ...` -/
+def parseReq (toks : List String) : Option (Addr × Request) :=
+  match toks with
+  | src :: kind :: rid :: rest =>
+    match parseAddr src, hexToBytes rid with
+    | some src, some rid =>
+      let rt : Option RequestType := match kind, rest with
+        | "ping", [] => some .ping
+        | "find_node", [t] => (hexToBytes t).map (fun t => .findNode ⟨t⟩)
+        | "get_peers", [t] => (hexToBytes t).map (fun t => .getPeers ⟨t⟩)
+        | "get_signed_peers", [t] => (hexToBytes t).map (fun t => .getSignedPeers ⟨t⟩)
+        | "get", [t, seq] => match hexToBytes t, optInt seq with
+          | some t, some seq => some (.getValue ⟨t⟩ seq none)
+          | _, _ => none
+        | "announce", [tok, ih, port, imp] => match hx tok, hexToBytes ih, port.toNat? with
+          | some tok, some ih, some port =>
+            some (.put tok (.announcePeer ⟨ih⟩ (UInt16.ofNat port)
+              (if imp == "none" then none else if imp == "0" then some false else some true)))
+          | _, _, _ => none
+        | "announce_signed", [tok, ih, t, k, sig] => match hx tok, hexToBytes ih, t.toNat?, hexToBytes k, hexToBytes sig with
+          | some tok, some ih, some t, some k, some sig => some (.put tok (.announceSignedPeer ⟨ih⟩ t k sig))
+          | _, _, _, _, _ => none
+        | "put_imm", [tok, t, v] => match hx tok, hexToBytes t, hx v with
+          | some tok, some t, some v => some (.put tok (.putImmutable ⟨t⟩ v))
+          | _, _, _ => none
+        | "put_mut", [tok, t, v, k, seq, sig, salt, cas] =>
+          match hx tok, hexToBytes t, hx v, hexToBytes k, seq.toInt?, hexToBytes sig, optInt cas with
+          | some tok, some t, some v, some k, some seq, some sig, some cas =>
+            let salt := if salt == "none" then some none else (hx salt).map some
+            salt.map (fun salt => .put tok (.putMutable ⟨t⟩ v k seq sig salt cas))
+          | _, _, _, _, _, _, _ => none
+        | _, _ => none
+      rt.map (fun rt => (src, { requesterId := ⟨rid⟩, rtype := rt }))
+    | _, _ => none
+  | _ => none
+
 def mkNode (idh addr : String) (now : Nat) : Option Node :=
   match hexToBytes idh, parseAddr addr with
   | some i, some a => some { id := ⟨i⟩, addr := a, lastSeen := now }
@@ -32,7 +115,6 @@ def mkNode (idh addr : String) (now : Nat) : Option Node :=
 def showOrd : Ordering → String
   | .lt => "lt" | .eq => "eq" | .gt => "gt"
 
-def hx (s : String) : Option Bytes := if s == "-" then some [] else hexToBytes s
 
 def showIdRes : Except DecodeIdError Id → String
   | .ok i => "ok:" ++ bytesToHex i.bytes
@@ -48,7 +130,58 @@ def step (st : DState) (line : String) : DState × String :=
   | ["case", n, "rtable", t] => (match hx t with
       | some t => ({ rt := { id := ⟨t⟩ } }, "case " ++ n)
       | none => (st, "bad-op"))
+  | ["case", n, "server", own, c1, c2, c3, c4, seed, filt, t0] =>
+      (match hx own, c1.toNat?, c2.toNat?, c3.toNat?, c4.toNat?, seed.toNat?, t0.toNat? with
+      | some own, some c1, some c2, some c3, some c4, some seed, some t0 =>
+        let filter : DFilter :=
+          if filt == "all" then .all else if filt == "denyput" then .denyPut
+          else .denyIp (UInt32.ofNat ((filt.drop 7).toString.toNat?.getD 0))
+        ({ server := some (Server.new c1 c2 c3 c4 (UInt64.ofNat seed) 0),
+           rt := { id := ⟨own⟩ }, srt := { id := ⟨own⟩ }, t0 := t0, filter := filter }, "case " ++ n)
+      | _, _, _, _, _, _, _ => (st, "bad-op"))
+  | ["case", n, "tokens", seed, t0] => (match seed.toNat?, t0.toNat? with
+      | some seed, some t0 =>
+        let (t, rng) := Tokens.new (UInt64.ofNat seed) 0
+        ({ tokens := some t, rng := rng, t0 := t0 }, "case " ++ n)
+      | _, _ => (st, "bad-op"))
   | "case" :: n :: _ => ({}, "case " ++ n)
+  -- server stream
+  | ["rtadd", which, idh, addr] => (match mkNode idh addr st.now with
+      | none => (st, "bad-op")
+      | some n =>
+        if which == "main" then
+          let (rt', r) := st.rt.add n st.now
+          ({ st with rt := rt' }, toString r)
+        else
+          let (rt', r) := st.srt.add n st.now
+          ({ st with srt := rt' }, toString r))
+  | ["know", k, msg, sig] => (match hexToBytes k, hx msg, hexToBytes sig with
+      | some k, some msg, some sig => ({ st with sigs := (k, msg, sig) :: st.sigs }, "ok")
+      | _, _, _ => (st, "bad-op"))
+  | "req" :: rest => (match st.server, parseReq rest with
+      | some srv, some (src, req) =>
+        let wall := 1700000000000000 + (st.t0 + st.now) / 1000
+        let (srv', reply) := srv.handleRequest st.verify st.allow st.rt st.srt src st.now wall req
+        ({ st with server := some srv' }, showReply reply)
+      | _, _ => (st, "bad-op"))
+  | ["sizes"] => (match st.server with
+      | some s =>
+        let mx := fun {κ ν : Type} (l : Lru κ (Lru κ ν)) => (l.items.map (fun p => p.2.len)).foldl max 0
+        (st, s!"{s.peers.len} {mx s.peers} {s.signedPeers.len} {(s.signedPeers.items.map (fun p => p.2.len)).foldl max 0} {s.immutable.len} {s.mutable.len}")
+      | none => (st, "bad-op"))
+  | ["tok", "should"] => (match st.tokens with
+      | some t => (st, toString (t.shouldUpdate st.now))
+      | none => (st, "bad-op"))
+  | ["tok", "rotate"] => (match st.tokens with
+      | some t => let (t', rng) := t.rotate st.rng st.now
+                  ({ st with tokens := some t', rng := rng }, "ok")
+      | none => (st, "bad-op"))
+  | ["tok", "gen", addr] => (match st.tokens, parseAddr addr with
+      | some t, some a => (st, bytesToHex (t.generate a.ip))
+      | _, _ => (st, "bad-op"))
+  | ["tok", "val", addr, token] => (match st.tokens, parseAddr addr, hx token with
+      | some t, some a, some tk => (st, toString (t.validate a.ip tk))
+      | _, _, _ => (st, "bad-op"))
   -- closest stream
   | ["add", idh, addr] => (match mkNode idh addr st.now with
       | none => (st, "bad-op")
